@@ -8,6 +8,7 @@ import (
 	"fmt"
 	"io"
 	"log"
+	"math"
 	"net/http"
 	"net/url"
 	"sort"
@@ -442,7 +443,9 @@ func (w *c12World) newOp() *c12Op {
 		op.B = op.A + int64(t.Intn(int(n-op.A)+1))
 		if t.Chance(1, 6) {
 			// the edges of the client's own range checks (end < 0, end < start) and of the tree
-			e := [][2]int64{{-1, 0}, {0, -1}, {1, 0}, {-5, -1}, {0, 0}, {n - 1, n - 1}, {n, n + 3}, {0, 1 << 62}, {-1, -1}}[t.Intn(9)]
+			e := [][2]int64{{-1, 0}, {0, -1}, {1, 0}, {-5, -1}, {0, 0}, {n - 1, n - 1}, {n, n + 3}, {0, 1 << 62}, {-1, -1},
+				// "the whole log": widths at and beyond what an int64 holds
+				{0, math.MaxInt64}, {1, math.MaxInt64}, {math.MinInt64, math.MaxInt64}, {-2, math.MaxInt64 - 1}}[t.Intn(13)]
 			op.A, op.B = e[0], e[1]
 			op.mutNote = "range-edge "
 		}
